@@ -1,0 +1,25 @@
+//go:build verif
+// +build verif
+
+package txpool
+
+import (
+	"github.com/LemoFoundationLtd/lemochain-core/chain/types"
+	"github.com/LemoFoundationLtd/lemochain-core/common"
+)
+
+// VerifState returns a copy of the pool's internal state for the verification
+// harness (property C18): the slot slice including nil (deleted) slots, the
+// hash -> slot index map, and the cap field. Read-only; takes the pool lock.
+func (pool *TxPool) VerifState() (slots types.Transactions, index map[common.Hash]int, capacity int) {
+	pool.RW.Lock()
+	defer pool.RW.Unlock()
+
+	slots = make(types.Transactions, len(pool.txs))
+	copy(slots, pool.txs)
+	index = make(map[common.Hash]int, len(pool.hashIndexMap))
+	for k, v := range pool.hashIndexMap {
+		index[k] = v
+	}
+	return slots, index, pool.cap
+}
